@@ -6,12 +6,12 @@ and last two intervals at five fractions, on both sides of both table ends (1e-1
 and huge arguments and for elements / shells without a table.  The reference is the cubic-spline formula evaluated in
 extended precision in the documented space; the tolerance is the forward error bound of that formula (DESIGN C02):
 
-    |v - ref| <= 1e-9 |ref| + 4e-15 S + D dx        S = |y_k|+|y_k+1| + (|y2_k|+|y2_k+1|) h^2/6
+    |v - ref| <= 1e-12 |ref| + 4e-15 S + D dx       S = |y_k|+|y_k+1| + (|y2_k|+|y2_k+1|) h^2/6
                                                     D = |y_k+1-y_k|/h + (|y2_k|+|y2_k+1|) h/3   (bound of |d ref/dx|)
                                                     dx = 2 ulp of the transformed argument (0 for linear tables)
-(for the quantities tabulated as logarithms the same bound is the *relative* tolerance: 1e-9 + 4e-15 S + D dx).
+(for the quantities tabulated as logarithms the same bound is the *relative* tolerance: 1e-12 + 4e-15 S + D dx).
 """
-import math
+import math, os
 import numpy as np
 from .. import common, refdata, execlib
 
@@ -23,6 +23,8 @@ P_KNOT, P_MID, P_ENDFRAC, P_STRADDLE, P_SPECIAL, P_KEXT = range(6)
 PKIND = ['knot', 'interior', 'end-interval', 'straddle', 'special', 'kissel-low-end']
 FR_ALL = (1e-6, 0.25, 0.5, 0.75, 1 - 1e-6)
 STRADDLE = (1e-12, 1e-9, 1e-6, 1e-3)
+REL = float(os.environ.get('XV_C02_REL', '1e-12'))    # relative part of the value tolerance.  Both sides evaluate the same spline through the same 11-digit knots: the pinned
+                                                      # tree stays below 7 % of the bound even with 2e-13; 1e-9 (the plan's value) let a 2e-10 slip in a coefficient pass
 HIGH_BAND = 1e-7 * (1 + 1e-9)      # the library tolerates x - x_N <= 1e-7 in transformed space
 EDGE_GUARD = 1e-9                  # |E/edge - 1| below this: either side of the edge is accepted
 MAXW = 3                           # witnesses per key
@@ -239,11 +241,11 @@ class Quantity:
                 R = np.exp(r)
                 ve = v.astype(LD) if self.scale is None else v.astype(LD) / self.scale[t].astype(LD)
                 err = (np.abs(ve - R) / R).astype(float)
-                tol = 1e-9 + tolbase
+                tol = REL + tolbase
                 ref = R.astype(float) if self.scale is None else (R * self.scale[t]).astype(float)
             else:
                 err = np.abs(v.astype(LD) - r).astype(float)
-                tol = 1e-9 * np.abs(r).astype(float) + tolbase
+                tol = REL * np.abs(r).astype(float) + tolbase
                 ref = r.astype(float)
             q = np.where(err == 0, 0.0, err / tol)      # an exact match needs no tolerance (tables that are identically 0)
         q = np.where(valid & np.isfinite(q), q, np.inf)
@@ -516,7 +518,7 @@ def check_total(ck, L, qp, ktab, edges, tier, st):
             rr = np.where(low, re, rs); S = np.where(low, Se, Ss); D = np.where(low, De, Ds)
             with np.errstate(all='ignore'):
                 term = np.where(on, occ * np.exp(rr), 0)
-                tol = np.where(on, term * (1e-9 + 4e-15 * S + D * qp.dx(x)), 0)
+                tol = np.where(on, term * (REL + 4e-15 * S + D * qp.dx(x)), 0)
             expv[m] += term; tolv[m] += tol; nterms[m] += on
     res = L.multi([('CSb_Photo_Total', Zs, Es), ('CS_Photo_Total', Zs, Es)])
     st['calls'] += 2 * len(Zs)
@@ -701,7 +703,7 @@ def main(tier):
                total_vs_total_table=st.get('total_vs_total_table'), tables=tables, per_function=st['per_function'],
                nontrivial_intervals_per_quantity={k: len(v) for k, v in st['intervals'].items()})
     return ck.finish(cov, ['refdata.py parsers are independent of xrayfiles.c/pr_data.c; knots rounded through %.10E as the generator prints them',
-                           'reference spline evaluated in x87 extended precision; tolerance 1e-9|ref| + 4e-15 S + D dx (forward error bound)',
+                           'reference spline evaluated in x87 extended precision; tolerance 1e-12|ref| + 4e-15 S + D dx (forward error bound)',
                            'transformed arguments computed with the C library log() (math.log), the library is allowed 2 ulp on it',
                            'at a duplicated abscissa either tabulated value or either one-sided limit is accepted (not a blend of the two); intervals on the hull '
                            'of the non-monotone step of one photo table are skipped and counted',
